@@ -3,6 +3,7 @@ import Anysystem.Proofs.R5Rel
 import Anysystem.Proofs.SearchThmsOn
 import Anysystem.Proofs.C11Congr
 import Anysystem.Proofs.StagedThms
+import Anysystem.Proofs.R5MainLemmas
 /-!
 # R5 — C04 end to end (partial: fault rates zero, no crash/recover after the snapshot, override-free program, exact time)
 
@@ -16,6 +17,17 @@ Chain: `timedRel_snapshot` (the simulator state is `TimedRel`-related to the ref
 reduced-enabled reference step), R2 completeness (`alternatives_complete'`: the checker offers that step) and finally R3
 (`search_ok_exhaustive_on` with C11's `GoodState` congruence: every reachable state has a representative among the
 evaluated ones) and `key_covers` (equal keys have equal process-visible projections).
+
+Changes with respect to the draft statements:
+* `sim_step_matched` has the additional hypothesis `hsucc` (the exploration does not panic on the states it expands:
+  `successors` of a reachable state with verdict `cont` is `ok`).  No lemma says that `successors` of a `Sim'`-related
+  state cannot fail, and `ReachC.step` needs the successor list.  The main theorem does NOT assume it: it derives it from
+  the `Ok` search result (`search_ok_reach_succ_ok` in `R5MainLemmas`: an `Ok` run computed the successors of every
+  evaluated `cont` state, and by key congruence so does every reachable state).
+* `sim_run_covered_partial` is proved exactly as drafted (the draw budget `4 * k * len` is enough: with
+  `M := draws.length / (4 * k)` every handler call returns at most `M` actions, `4 * (k * M) ≤ draws.length`, and one step
+  drops at most `4 * M` draws from the front of the stream, `sim_step_draws`).
+* `R5MainDemo`: non-vacuity, full instantiation on the demo state with a kernel-evaluated `Ok` search.
 -/
 namespace Anysystem
 
@@ -28,6 +40,45 @@ def visibleEqMc (q : Sim σ T) (e : McSys σ) : Prop :=
 /-- the checker's start state of the run: the snapshot after `McStarted` -/
 def startedOf (s₀ : McSys σ) : McSys σ := { s₀ with trace := s₀.trace ++ [LogE.started] }
 
+/-- the chain step with its frame facts: besides the invariant of `sim_step_matched`, the checker's network settings are
+    untouched (so the simulator's `proc_locations` are, see `sim_step_procLoc`) -/
+theorem sim_step_matched_aux [LawfulTime T] [DecidableEq σ] (bits : T → Nat) (laws : SnapTimeLaws bits) (h : Handler σ)
+    (p : Preds σ) (hash : McSys.Key σ → Nat)
+    (q q' : Sim σ T) (s s₁ : McSys σ) (r : RState σ) (gs : List (TimerGhost T))
+    (hrel : TimedRel bits q r gs) (hsim : Sim' s r) (hmode : s.mode = .normal) (hk : SendsKnown h s)
+    (hreach : ReachC (mcTSys {} h p hash) s₁ s)
+    (hof : OverrideFreeFrom h .normal r)
+    (hcont : ∀ x, ReachC (mcTSys {} h p hash) s₁ x → (∃ ids id, x.available = .ok ids ∧ id ∈ ids) → p.verdict x = .cont)
+    (hsucc : ∀ x, ReachC (mcTSys {} h p hash) s₁ x → p.verdict x = .cont → ∃ cs, x.successors {} h = .ok cs)
+    (hdelays : ∀ p st i a, a ∈ (h p st i).2 → ∀ name d once, a = .set name d once →
+      TimeOps.le TimeOps.zero (TimeOps.ofBits d : T) = true ∧ bits (TimeOps.ofBits d : T) = d)
+    (hknown : ∀ p st i a, a ∈ (h p st i).2 → ∀ m dst, a = .send m dst → (amGet? dst q.net.procLoc).isSome = true)
+    (hdraws : ∀ d ∈ q.draws, LawfulTime.isDraw d) (hlen : ∀ p st i, 4 * (h p st i).2.length ≤ q.draws.length)
+    (hstep : q.step (liftHandler h) = .ok (true, q')) :
+    ∃ s' r' gs', TimedRel bits q' r' gs' ∧ Sim' s' r' ∧ s'.mode = .normal ∧ SendsKnown h s' ∧
+      ReachC (mcTSys {} h p hash) s₁ s' ∧ OverrideFreeFrom h .normal r' ∧ s'.net = s.net := by
+  rcases sim_step_refines_partial bits h q q' r gs hrel laws.bits_mono laws.add_mono_left hdelays hknown hdraws hlen
+      hstep with ⟨gs', hrel'⟩ | ⟨l, r', gs', hen, hst, hrel'⟩
+  · -- the popped event was addressed to a node without handler: the checker stays where it is
+    exact ⟨s, r, gs', hrel', hsim, hmode, hk, hreach, hof, rfl⟩
+  · -- a reduced-enabled reference step: R2 completeness offers it, the exploration expands `s`
+    have hovf : r.overrideFree h l = true := hof [] r rfl l hen
+    obtain ⟨ids, id, alts, alt, s', hav, hid, halts, halt, happ, hsim'⟩ :=
+      alternatives_complete' h hsim hk (by rw [hmode]; exact hen) hst hovf
+    have hv : p.verdict s = .cont := hcont s hreach ⟨ids, id, hav, hid⟩
+    obtain ⟨cs, hcs⟩ := hsucc s hreach hv
+    have hmem : s' ∈ cs := (mem_successors_iff h hcs s').mpr ⟨ids, id, alts, alt, hav, hid, halts, halt, happ⟩
+    have hnet : s'.net = s.net := applyAlt_net h happ
+    refine ⟨s', r', gs', hrel', hsim', (applyAlt_mode h happ).trans hmode, ?_,
+      ReachC.step (S := mcTSys {} h p hash) hreach hv hcs hmem, ?_, hnet⟩
+    · intro pr st i a ha m dst hm
+      rw [hnet]
+      exact hk pr st i a ha m dst hm
+    · intro ls r'' hrun l' hen'
+      refine hof (l :: ls) r'' ?_ l' hen'
+      simp only [refRun, hen, ↓reduceIte, hst]
+      exact hrun
+
 /-- one simulator step is matched by at most one expansion step of the checker (invariant of the chain) -/
 theorem sim_step_matched [LawfulTime T] [DecidableEq σ] (bits : T → Nat) (laws : SnapTimeLaws bits) (h : Handler σ)
     (p : Preds σ) (hash : McSys.Key σ → Nat)
@@ -36,13 +87,85 @@ theorem sim_step_matched [LawfulTime T] [DecidableEq σ] (bits : T → Nat) (law
     (hreach : ReachC (mcTSys {} h p hash) s₁ s)
     (hof : OverrideFreeFrom h .normal r)
     (hcont : ∀ x, ReachC (mcTSys {} h p hash) s₁ x → (∃ ids id, x.available = .ok ids ∧ id ∈ ids) → p.verdict x = .cont)
+    -- ADDED: the exploration does not panic on the states it expands (the main theorem derives this from the `Ok` search)
+    (hsucc : ∀ x, ReachC (mcTSys {} h p hash) s₁ x → p.verdict x = .cont → ∃ cs, x.successors {} h = .ok cs)
     (hdelays : ∀ p st i a, a ∈ (h p st i).2 → ∀ name d once, a = .set name d once →
       TimeOps.le TimeOps.zero (TimeOps.ofBits d : T) = true ∧ bits (TimeOps.ofBits d : T) = d)
     (hknown : ∀ p st i a, a ∈ (h p st i).2 → ∀ m dst, a = .send m dst → (amGet? dst q.net.procLoc).isSome = true)
     (hdraws : ∀ d ∈ q.draws, LawfulTime.isDraw d) (hlen : ∀ p st i, 4 * (h p st i).2.length ≤ q.draws.length)
     (hstep : q.step (liftHandler h) = .ok (true, q')) :
     ∃ s' r' gs', TimedRel bits q' r' gs' ∧ Sim' s' r' ∧ s'.mode = .normal ∧ SendsKnown h s' ∧
-      ReachC (mcTSys {} h p hash) s₁ s' ∧ OverrideFreeFrom h .normal r' := sorry
+      ReachC (mcTSys {} h p hash) s₁ s' ∧ OverrideFreeFrom h .normal r' := by
+  obtain ⟨s', r', gs', h1, h2, h3, h4, h5, h6, _⟩ := sim_step_matched_aux bits laws h p hash q q' s s₁ r gs hrel hsim
+    hmode hk hreach hof hcont hsucc hdelays hknown hdraws hlen hstep
+  exact ⟨s', r', gs', h1, h2, h3, h4, h5, h6⟩
+
+/-- `steps (k+1)` that finds an event every time is a `step` that finds one followed by `steps k` -/
+theorem steps_succ_inv (hh : SHandler σ T) (k : Nat) (q q' : Sim σ T)
+    (hrun : q.steps hh (k + 1) = .ok (true, q')) :
+    ∃ q₁, q.step hh = .ok (true, q₁) ∧ q₁.steps hh k = .ok (true, q') := by
+  simp only [Sim.steps] at hrun
+  split at hrun
+  · cases hrun
+  · cases hrun
+  · rename_i q₁ hq₁
+    exact ⟨q₁, hq₁, hrun⟩
+
+/-- the invariant of the chain along `k` simulator steps; `M` bounds the number of actions of one handler call -/
+theorem sim_run_chain [LawfulTime T] [DecidableEq σ] (bits : T → Nat) (laws : SnapTimeLaws bits) (h : Handler σ)
+    (p : Preds σ) (hash : McSys.Key σ → Nat) (s₁ : McSys σ)
+    (hcont : ∀ x, ReachC (mcTSys {} h p hash) s₁ x → (∃ ids id, x.available = .ok ids ∧ id ∈ ids) → p.verdict x = .cont)
+    (hsucc : ∀ x, ReachC (mcTSys {} h p hash) s₁ x → p.verdict x = .cont → ∃ cs, x.successors {} h = .ok cs)
+    (hdelays : ∀ p st i a, a ∈ (h p st i).2 → ∀ name d once, a = .set name d once →
+      TimeOps.le TimeOps.zero (TimeOps.ofBits d : T) = true ∧ bits (TimeOps.ofBits d : T) = d)
+    (M : Nat) (hM : ∀ p st i, (h p st i).2.length ≤ M) (q' : Sim σ T) (k : Nat) :
+    ∀ (q : Sim σ T) (s : McSys σ) (r : RState σ) (gs : List (TimerGhost T)),
+      TimedRel bits q r gs → Sim' s r → s.mode = .normal → SendsKnown h s →
+      ReachC (mcTSys {} h p hash) s₁ s → OverrideFreeFrom h .normal r →
+      (∀ p st i a, a ∈ (h p st i).2 → ∀ m dst, a = .send m dst → (amGet? dst q.net.procLoc).isSome = true) →
+      (∀ d ∈ q.draws, LawfulTime.isDraw d) → 4 * (k * M) ≤ q.draws.length →
+      q.steps (liftHandler h) k = .ok (true, q') →
+      ∃ s' r' gs', TimedRel bits q' r' gs' ∧ Sim' s' r' ∧ ReachC (mcTSys {} h p hash) s₁ s' := by
+  induction k with
+  | zero =>
+    intro q s r gs hrel hsim _ _ hreach _ _ _ _ hrun
+    simp only [Sim.steps, Except.ok.injEq, Prod.mk.injEq, true_and] at hrun
+    subst hrun
+    exact ⟨s, r, gs, hrel, hsim, hreach⟩
+  | succ k ih =>
+    intro q s r gs hrel hsim hmode hk hreach hof hknown hdraws hlen hrun
+    obtain ⟨q₁, hstep, hrest⟩ := steps_succ_inv _ k q q' hrun
+    have hkm : (k + 1) * M = k * M + M := Nat.succ_mul k M
+    rw [hkm] at hlen
+    have hlen1 : ∀ p st i, 4 * (h p st i).2.length ≤ q.draws.length := by
+      intro pr st i
+      have := hM pr st i
+      omega
+    obtain ⟨s', r', gs', hrel', hsim', hmode', hk', hreach', hof', hnet⟩ := sim_step_matched_aux bits laws h p hash q q₁
+      s s₁ r gs hrel hsim hmode hk hreach hof hcont hsucc hdelays hknown hdraws hlen1 hstep
+    obtain ⟨k0, hk0, hd0⟩ := sim_step_draws h q q₁ r gs hrel laws.bits_mono laws.add_mono_left hdelays hknown hdraws
+      hlen1 M hM hstep
+    -- `proc_locations` are untouched: both sides mirror the (unchanged) network settings of the checker
+    have hloc : q₁.net.procLoc = q.net.procLoc := by
+      rw [← hrel'.net.netLoc, hsim'.net_eq, hnet, ← hsim.net_eq, hrel.net.netLoc]
+    refine ih q₁ s' r' gs' hrel' hsim' hmode' hk' hreach' hof' ?_ ?_ ?_ hrest
+    · intro pr st i a ha m dst hm
+      rw [hloc]
+      exact hknown pr st i a ha m dst hm
+    · intro d hd
+      rw [hd0] at hd
+      exact hdraws d (List.mem_of_mem_drop hd)
+    · rw [hd0, List.length_drop]
+      omega
+
+/-- the snapshot explores in the default ordering mode -/
+theorem snapshot_mode (bits : T → Nat) (q : Sim σ T) (s₀ : McSys σ) (hsnap : snapshot bits q = .ok s₀) :
+    s₀.mode = .normal := by
+  simp only [snapshot] at hsnap
+  split at hsnap
+  · cases hsnap
+  · cases hsnap
+    rfl
 
 /-- **C04, end to end (partial)** -/
 theorem sim_run_covered_partial [LawfulTime T] [DecidableEq σ] (bits : T → Nat) (laws : SnapTimeLaws bits) (h : Handler σ)
@@ -66,6 +189,179 @@ theorem sim_run_covered_partial [LawfulTime T] [DecidableEq σ] (bits : T → Na
     (k : Nat) (q' : Sim σ T) (hrun : q.steps (liftHandler h) k = .ok (true, q'))
     (hdraws : ∀ d ∈ q.draws, LawfulTime.isDraw d)
     (hlen : ∀ p st i, 4 * k * (h p st i).2.length ≤ q.draws.length) :
-    ∃ e ∈ a.evald, visibleEqMc q' e := sorry
+    ∃ e ∈ a.evald, visibleEqMc q' e := by
+  -- the start of the chain
+  obtain ⟨gs₀, hrel₀'⟩ := timedRel_snapshot bits laws q r gs hrel
+  have hrel₀ := TimedRel.withTrace bits q _ gs₀ hrel₀' ((snapshotRef bits q).trace ++ [LogE.started])
+  have hsim₀ : Sim' (startedOf s₀) { (snapshotRef bits q) with trace := (snapshotRef bits q).trace ++ [LogE.started] } :=
+    (snapshot_sim' bits q s₀ hwf hsnap).appendTrace [LogE.started]
+  have hmode₀ : (startedOf s₀).mode = .normal := snapshot_mode bits q s₀ hsnap
+  have hk₀ : SendsKnown h (startedOf s₀) := snapshot_sendsKnown bits h q s₀ hsnap hknown
+  have hgood : GoodState h (startedOf s₀).net .normal (startedOf s₀) := ⟨rfl, hmode₀, hk₀, _, hsim₀, hof⟩
+  have hcong := mcTSys_congruentOn h p hp hash (startedOf s₀).net .normal
+  have hclosed := goodState_closed h p hash (startedOf s₀).net .normal
+  have hsucc : ∀ x, ReachC (mcTSys {} h p hash) (startedOf s₀) x → p.verdict x = .cont →
+      ∃ cs, x.successors {} h = .ok cs :=
+    search_ok_reach_succ_ok (mcTSys {} h p hash) _ hcong hclosed strat mode hm fuel (startedOf s₀) hgood a hsearch
+  -- the chain
+  have hchain : ∃ s' r' gs', TimedRel bits q' r' gs' ∧ Sim' s' r' ∧ ReachC (mcTSys {} h p hash) (startedOf s₀) s' := by
+    cases k with
+    | zero =>
+      simp only [Sim.steps, Except.ok.injEq, Prod.mk.injEq, true_and] at hrun
+      subst hrun
+      exact ⟨_, _, gs₀, hrel₀, hsim₀, ReachC.refl⟩
+    | succ k =>
+      have hM : ∀ pr st i, (h pr st i).2.length ≤ q.draws.length / (4 * (k + 1)) := by
+        intro pr st i
+        rw [Nat.le_div_iff_mul_le (by omega)]
+        have := hlen pr st i
+        rw [Nat.mul_comm]
+        exact this
+      refine sim_run_chain bits laws h p hash (startedOf s₀) hcont hsucc hdelays _ hM q' (k + 1) q (startedOf s₀) _ gs₀
+        hrel₀ hsim₀ hmode₀ hk₀ ReachC.refl hof hknown hdraws ?_ hrun
+      rw [← Nat.mul_assoc]
+      exact Nat.mul_div_le _ _
+  -- R3 + C11: a key-representative of the reached checker state was evaluated; its process-visible part is the same
+  obtain ⟨s', r', gs', hrel', hsim', hreach'⟩ := hchain
+  obtain ⟨⟨e, he, hkey⟩, _⟩ := search_ok_exhaustive_on (mcTSys {} h p hash) _ hcong hclosed strat mode hm fuel
+    (startedOf s₀) hgood a hsearch s' hreach'
+  have hkey' : e.key = s'.key := hkey
+  have hprocs : procsOf e = procsOf s' := procsOf_eq_of_view e s' (key_covers e s' hkey').2
+  refine ⟨e, he, ?_⟩
+  intro n pr pe hq
+  rw [hprocs, ← hsim'.procs_eq]
+  exact (hrel'.proc.procs n pr pe hq).1
+
+/-! ## Non-vacuity: the demo state of `R4Demo` / `R5Demo`, two further steps, a concrete `Ok` exploration -/
+namespace R5MainDemo
+
+open R4Demo R5Demo
+
+/-- trivial predicates: the invariant never fails, the goal is "no offered event", nothing is pruned -/
+def demoP : Preds Nat := { goal := fun s => if s.events.available.isEmpty then some "done" else none }
+
+theorem demoP_keyBased : KeyBased demoP := by
+  intro a b hk
+  have he : a.events = b.events := (key_covers a b hk).1
+  simp only [demoP, he, and_self]
+
+/-- the exploration with `demoP` stops only at states without an offered event -/
+theorem demoP_cont (x : McSys Nat) (hx : ∃ ids id, x.available = .ok ids ∧ id ∈ ids) : demoP.verdict x = .cont := by
+  obtain ⟨ids, id, hav, hid⟩ := hx
+  have hne : x.events.available.isEmpty = false := by
+    cases hem : x.events.available with
+    | cons a l => rfl
+    | nil =>
+      exfalso
+      simp only [McSys.available, Store.availableEvents, hem] at hav
+      split at hav
+      · cases hav
+      · split at hav
+        · cases hav; cases hid
+        · simp only [List.any_nil, Bool.false_eq_true, if_false, List.filter_nil, List.isEmpty_nil, if_true] at hav
+          cases hav; cases hid
+  simp only [Preds.verdict, demoP, hne, Bool.false_eq_true, if_false]
+
+/-- `demoH` sets timers only on local messages, which the reference steps never feed it -/
+theorem demoH_overrideFree (r : RState Nat) (l : Label) : r.overrideFree demoH l = true := by
+  cases l with
+  | deliver i =>
+    simp only [RState.overrideFree]
+    split
+    · rfl
+    · split
+      · rfl
+      · rfl
+  | fire j =>
+    simp only [RState.overrideFree]
+    split
+    · rfl
+    · split
+      · rfl
+      · rfl
+  | drop i => rfl
+  | dup i => rfl
+  | corrupt i => rfl
+
+/-- `q1` of `R4Demo` with sixteen draws instead of eight (two steps of a program that may return two actions) -/
+def q1d : Sim Nat Ticks := { q1 with draws := List.replicate 16 ⟨1⟩ }
+
+theorem q1d_wf : SnapWF q1d :=
+  ⟨q1_wf.nodesSorted, q1_wf.procsSorted, q1_wf.procsNodup, q1_wf.loc, q1_wf.locBack, q1_wf.timerLoc, q1_wf.timerUniq,
+    q1_wf.pendMap, q1_wf.noCrashedTimer, q1_wf.noCrashedSrc, q1_wf.idsNodup⟩
+
+/-- the snapshot of `q1d` -/
+def s0 : McSys Nat := match snapshot bitsT q1d with
+  | .ok s => s
+  | .error _ => {}
+
+theorem s0_eq : snapshot bitsT q1d = .ok s0 := rfl
+
+/-- the state after two further steps: the message is delivered, then the timer fires -/
+def q3 : Sim Nat Ticks := match q1d.steps (liftHandler demoH) 2 with
+  | .ok (_, s) => s
+  | .error _ => q1d
+
+theorem q3_eq : q1d.steps (liftHandler demoH) 2 = .ok (true, q3) := rfl
+
+example : q3.events = [] ∧ q3.clock = ⟨5⟩ ∧ (q3.proc? 0 1).map (·.st) = some 2 := by decide
+
+def demoSearch (strat : Strat) :=
+  search (mcTSys {} demoH demoP (fun _ => 0)) strat 10 (startedOf s0) (Acc.fresh .full)
+
+def isOkRes : Option (Res (McSys Nat) × Acc (McSys Nat) (McSys.Key Nat)) → Bool
+  | some (.ok, _) => true
+  | _ => false
+
+/-- both strategies finish `Ok` within fuel 10 (kernel evaluation; four states are evaluated) -/
+theorem demoSearch_ok : isOkRes (demoSearch .dfs) = true ∧ isOkRes (demoSearch .bfs) = true := by decide +kernel
+
+theorem isOkRes_some {x : Option (Res (McSys Nat) × Acc (McSys Nat) (McSys.Key Nat))} (h : isOkRes x = true) :
+    ∃ a, x = some (.ok, a) := by
+  cases x with
+  | none => cases h
+  | some y =>
+    obtain ⟨res, a⟩ := y
+    cases res with
+    | ok => exact ⟨a, rfl⟩
+    | err m e => cases h
+    | panic m => cases h
+
+/-- **Non-vacuity of `sim_run_covered_partial`, full instantiation**: for the demo state (one queued timer, one queued
+    message), both strategies and the full cache, the exploration from the snapshot finishes `Ok` and the
+    process-visible state after two further simulator steps is that of an evaluated state. -/
+theorem demo_covered (strat : Strat) :
+    ∃ a, demoSearch strat = some (.ok, a) ∧ ∃ e ∈ a.evald, visibleEqMc q3 e := by
+  have hok : isOkRes (demoSearch strat) = true := by
+    cases strat with
+    | dfs => exact demoSearch_ok.1
+    | bfs => exact demoSearch_ok.2
+  obtain ⟨a, ha⟩ := isOkRes_some hok
+  refine ⟨a, ha, ?_⟩
+  obtain ⟨r, gs, hrel, _, _, hdel, hkn, _, _, _, _⟩ := demo_hyps
+  have hrel' : TimedRel bitsT q1d r gs := hrel.sameView (Sim.sameView_draws q1 (List.replicate 16 ⟨1⟩))
+  refine sim_run_covered_partial bitsT ticks_snapTimeLaws demoH demoP demoP_keyBased (fun _ => 0) q1d r gs hrel' q1d_wf
+    s0 s0_eq strat .full (Or.inl rfl) 10 a ha ?_ hdel hkn (fun x _ hx => demoP_cont x hx) 2 q3 q3_eq ?_ ?_
+  · intro ls r' _ l _
+    exact demoH_overrideFree r' l
+  · intro d hd
+    have : q1d.draws = List.replicate 16 ⟨1⟩ := rfl
+    rw [this, List.mem_replicate] at hd
+    rw [hd.2]; show (1 : Nat) < 1000; omega
+  · intro p st i
+    have : q1d.draws.length = 16 := rfl
+    rw [this]
+    cases i <;> simp [demoH]
+
+/-- the covering evaluated state indeed shows process 1 in state 2 with an empty outbox -/
+example (strat : Strat) : ∃ a, demoSearch strat = some (.ok, a) ∧
+    ∃ e ∈ a.evald, amGet? 1 (procsOf e) = some ⟨2, []⟩ := by
+  obtain ⟨a, ha, e, he, hv⟩ := demo_covered strat
+  refine ⟨a, ha, e, he, ?_⟩
+  have hq : q3.proc? 0 1 = some (match q3.proc? 0 1 with | some pe => pe | none => pe1) := rfl
+  have := hv 0 1 _ hq
+  exact this
+
+end R5MainDemo
 
 end Anysystem
